@@ -178,7 +178,7 @@ class TLSNet:
 
     def _party(self, sock, conn):
         rec, plan = conn.rec, self.plan
-        sock.settimeout(plan.get("io_timeout", 3.0))
+        sock.settimeout(plan.get("io_timeout", 4.0))
         layer = sock
         try:
             if plan.get("proxy") == "https":
@@ -234,7 +234,7 @@ class TLSNet:
 
     def _await_eof(self, sock, rec):
         """Ground truth for 'the client closed the socket': EOF or reset seen on the raw fd."""
-        deadline = time.monotonic() + self.plan.get("eof_wait", 1.5)
+        deadline = time.monotonic() + self.plan.get("eof_wait", 4.0)
         while time.monotonic() < deadline:
             try:
                 sock.settimeout(max(0.01, deadline - time.monotonic()))
